@@ -470,11 +470,16 @@ def run(ctx, proof, driver_ok):
         if k is not None:
             rep = c19_iter_probe.describe('plain', c19_iter_probe.DELETE_ONE_2,
                                           c19_iter_probe.DELETE_ONE_2, k, res)
+            back = any(p.get('class') == e['id'] or p['clause'] == 'a delete counts what it removes'
+                       for p in res['problems'])
             rep['kind'] = ('property fails on the real code: a finding repaired in the library '
-                           'is back (%s)' % e['what'])
+                           'is back (%s)' % e['what'] if back else
+                           'property fails on the real code: two concurrent delete_one of one '
+                           'document (the witness of the repaired finding %s) do not both run '
+                           'to completion as they should' % e['id'])
             rep['witness_of_fixed_finding'] = e['id']
             rep['iter_probe']['witness'] = 'delete_delete'
-            ctx.violation(rep, rank=2)
+            ctx.violation(rep, rank=2 if back else 2000)
     fixed = [e for e in fixed if 'iter_probe_witness' not in e['witness']]
     for e in fixed:
         cases.append(load_case(e['witness']))
